@@ -156,7 +156,11 @@ def run(ctx, spec):
             if any(flatx):
                 xi = of4(finv(X))
                 add('_ f4.inv %s' % h4(x), 'f4.inv', 'ok ' + h4(xi), ('f4inv', x), ntx)
-                add('_ f4.mul %s %s' % (h4(x), h4(xi)), 'f4.mul/cancel', 'ok ' + h4(((1, 0), (0, 0))), ('f4mulinv', x), ntx)
+                one4 = h4(((1, 0), (0, 0)))
+                add('t f4.mul %s %s' % (h4(x), h4(xi)), 'f4.mul/cancel', 'ok ' + one4, ('f4mulinv', x), ntx)
+                add('_ f4.eq $t %s' % one4, 'f4.mul/cancel', 'bool true', ('f4mulinv-eq', x), ntx)
+                add('d f4.sub $t %s' % one4, 'f4.mul/cancel', 'ok ' + h4(((0, 0), (0, 0))), ('f4mulinv-sub', x), ntx)
+                add('_ f4.is_zero $d', 'f4.mul/cancel', 'bool true', ('f4mulinv-iz', x), ntx)
             b1 = ((0, 0), y[1])
             add('_ f4.mul_1 %s %s' % (h4(x), h4(b1)), 'f4.mul_1', 'ok ' + h4(of4(fmul(X, rm.f4_to12(b1)))), ('f4mul1', x, y[1]), ntx)
             for code in rng.sample(F4_FROB, 3):
@@ -191,7 +195,11 @@ def run(ctx, spec):
                 ai = finv(a)
                 add('_ f12.inv %s' % A, 'f12.inv', 'ok ' + h12(ai), ('inv', A), nz(a))
                 # x * x^-1: eleven coefficients cancel exactly to zero although every partial product is non-zero
-                add('_ f12.mul %s %s' % (A, h12(ai)), 'f12.mul/cancel', 'ok ' + h12(rm.ONE), ('mulinv', A), nz(a))
+                add('t f12.mul %s %s' % (A, h12(ai)), 'f12.mul/cancel', 'ok ' + h12(rm.ONE), ('mulinv', A), nz(a))
+                # a coordinate left as the unreduced modulus PRINTS as zero: also ask the library's own == and is_zero
+                add('_ f12.eq $t %s' % h12(rm.ONE), 'f12.mul/cancel', 'bool true', ('mulinv-eq', A), nz(a))
+                add('d f12.sub $t %s' % h12(rm.ONE), 'f12.mul/cancel', 'ok ' + h12(rm.ZERO), ('mulinv-sub', A), nz(a))
+                add('_ f12.is_zero $d', 'f12.mul/cancel', 'bool true', ('mulinv-iz', A), nz(a))
             if rng.random() < 0.15:
                 add('_ f12.inv %s' % h12(rm.ZERO), 'f12.inv/zero', 'none', None, False)
             # sparse operand for mul_015: c0 arbitrary, c1 = 0, c2 = (0, *)  i.e. coefficients at w^0, w^3, w^6, w^9 and w^5, w^11
